@@ -37,12 +37,12 @@ func (s Style) String() string {
 
 // Plan is the delivery and fault schedule of one reader.
 type Plan struct {
-	Style      Style
+	Style       Style
 	EOFWithData bool // the final chunk is returned together with io.EOF
-	TruncAt    int  // >= 0: the stream ends here (peer died)
-	ErrAt      int  // >= 0: reads touching this offset fail with ErrSimIO
-	Seekable   bool
-	Start      int // the reader is positioned here when handed over (bytes before it were consumed by someone else)
+	TruncAt     int  // >= 0: the stream ends here (peer died)
+	ErrAt       int  // >= 0: reads touching this offset fail with ErrSimIO
+	Seekable    bool
+	Start       int // the reader is positioned here when handed over (bytes before it were consumed by someone else)
 }
 
 func (p Plan) Faulted() bool { return p.TruncAt >= 0 || p.ErrAt >= 0 }
